@@ -112,6 +112,9 @@ func (w *World) mapLiteral(pkgPath, name string) ([]litEntry, bool) {
 
 // globalMapContent builds the map content of a package-level map literal (closed world: exactly these keys).
 func (x *Exec) globalMapContent(o *Obj, mt *types.Map, pkgPath, name string) (*MapContent, bool) {
+	if _, scalar := under(mt.Elem()).(*types.Basic); !scalar {
+		return nil, false // only tables of scalars are read from their literals
+	}
 	ents, ok := x.W.mapLiteral(pkgPath, name)
 	if !ok {
 		return nil, false
